@@ -287,13 +287,16 @@ def cleanupConnection (d : Daemon) (i : Id) : Daemon :=
     let d2 := { d1 with cleanup := i :: d1.cleanup }
     d2.set i { (d2.c i) with resuming := false }
 
+/-- one iteration of `MHD_cleanup_connections`: the connection is freed (the client-side facts of
+    the script survive in the record) -/
+def freeOne (d : Daemon) (i : Id) : Daemon :=
+  { (d.set i { kind := (d.c i).kind, peerClosed := (d.c i).peerClosed, wantSusp := (d.c i).wantSusp })
+      with eready := without d.eready i, kq := without d.kq i }
+
 /-- `MHD_cleanup_connections`: from the tail of the cleanup list -/
 def cleanupAll (d : Daemon) : Daemon × List Event :=
   let l := d.cleanup.reverse
-  let d1 := l.foldl (fun d i =>
-      { (d.set i { kind := (d.c i).kind, peerClosed := (d.c i).peerClosed, wantSusp := (d.c i).wantSusp })
-          with eready := without d.eready i, kq := without d.kq i }) d
-  ({ d1 with cleanup := [] }, l.map Event.freed)
+  ({ (l.foldl freeOne d) with cleanup := [] }, l.map Event.freed)
 
 /-! ### the sleep hint -/
 
